@@ -6,21 +6,28 @@
 
   * the accounting machine (Model/Ext4/Alloc.lean): `AccInv` — every group's free counters equal the number of
     clear bits of its bitmaps and the superblock counters equal the sums — is preserved by allocateExtents for
-    every answer of the allocation policy, by deallocateExtents, by allocateInode, and by every REFUSED call
-    (`accounting_inv`); Remove's accounting as found breaks it on a concrete state (`cex_ext4_remove_accounting`),
-    the repaired arithmetic restores it on that state.
+    every answer of the allocation policy, by deallocateExtents, by allocateInode, by Remove's release of an
+    inode and its blocks (repaired bookkeeping, `remove_restores_inv`) and by every REFUSED call
+    (`accounting_inv`, `accounting_inv_history` for all sequences of these); Remove's accounting as found
+    (before fix cde94d7) breaks it on a concrete state (`cex_ext4_remove_accounting`).
   * the mkfs layout arithmetic (Model/Ext4/Mkfs.lean) for every accepted parameter set: counts are consistent
     (inodes per group a multiple of 8, inode count = groups × inodes per group, the groups exactly cover the
     blocks), and — when the metadata fits behind the flex owner (`Fits`, decidable, checked by the driver for
     every generated parameter set) — the per-group metadata regions are pairwise disjoint, lie behind the
     superblock / GDT copy and inside the owner's block group (`mkfs_regions_disjoint`, `mkfs_layout_inside`).
 
-  PARTIAL: journal, resize inode, extent-tree blocks, directory link counts and checksums are not modelled;
-  `removeInode` with the repaired arithmetic is proved to restore the invariant only on the witness state
-  (general theorem `removeInode_fixed_inv` not proved).
+  * link counts and used-directories counters (Model/Ext4/Links.lean): the bookkeeping of Mkdir / create / Symlink
+    and Remove keeps "a directory has 2 + #sub-directories links, everything else 1, each group's counter is the
+    number of its directory inodes" along every history (`links_inv`, `links_inv_history`).
+
+  PARTIAL: journal, resize inode, the contents of extent-tree blocks, directory blocks and checksums are
+  not modelled; that the blocks Remove releases are exactly the marked blocks the inode owns is a hypothesis of
+  `remove_restores_inv` (checked on every Remove of the sampled histories by the correspondence).
 -/
 import DiskfsModel.Proofs.Ext4Alloc
+import DiskfsModel.Proofs.Ext4AllocSlow
 import DiskfsModel.Proofs.Ext4Mkfs
+import DiskfsModel.Proofs.Ext4Links
 namespace Diskfs.Ext4.C05
 open Diskfs.Ext4 Diskfs.Ext4.Alloc Diskfs.Ext4.Mkfs
 
@@ -32,6 +39,8 @@ theorem accounting_inv (s : Acc) (op : Op) (h : AccInv s) : AccInv (step s op).s
   | alloc n c => exact allocExtents_inv s n c h
   | dealloc rs => exact deallocExtents_inv s rs h
   | newInode d => exact allocInode_inv s d h
+  | remove geo ino blocks d => exact removeOp_inv geo s ino blocks d h
+  | free geo blocks => exact freeBlocksOp_inv geo s blocks h
 
 /-- a refused allocation leaves the state untouched -/
 theorem alloc_refused_unchanged (s : Acc) (n : Nat) (c : Option (List Run)) (s' : Acc)
@@ -52,6 +61,103 @@ theorem accounting_inv_history (ops : List Op) (s : Acc) (h : AccInv s) :
   | nil => exact h
   | cons op ops ih => exact ih _ (accounting_inv s op h)
 
+/-- alloc_policy_accepted: with consistent counters, allocateExtents carried out with its own choice of blocks
+    (fast path, else slow path, any order of the sort) is accepted by the machine whenever it finds blocks, keeps
+    `counters = bitmaps`, lowers the superblock counter by exactly `n`, and is refused — leaving the state
+    untouched — only when fewer than `n` blocks are free or more than 65535 are asked for. -/
+theorem alloc_policy_accepted (order : Nat → List (Nat × Nat) → List (Nat × Nat))
+    (horder : ∀ g l, (order g l).Perm l) (s : Acc) (n : Nat) (hn : 0 < n) (h : AccInv s) :
+    (∃ s', allocExtents s n (allocPolicy order (s.groups.map (·.bbm)) n) = .ok s' ∧ AccInv s' ∧
+      s'.sbFreeBlocks + n = s.sbFreeBlocks) ∨
+    (allocExtents s n (allocPolicy order (s.groups.map (·.bbm)) n) = .refused s ∧
+      (maxUint16 < n ∨ s.sbFreeBlocks < n)) := by
+  have htot : totalFree (s.groups.map (·.bbm)) = s.sbFreeBlocks := by
+    obtain ⟨hg, hb, _⟩ := h
+    rw [hb]
+    simp only [totalFree, List.map_map]
+    congr 1
+    apply List.map_congr_left
+    intro g hgm
+    exact ((hg g hgm).1).symm
+  obtain ⟨h1, h2⟩ := allocPolicy_spec order horder s n hn
+  by_cases hfree : s.sbFreeBlocks < n
+  · right
+    exact ⟨by simp [allocExtents, hfree], Or.inr hfree⟩
+  · cases hp : allocPolicy order (s.groups.map (·.bbm)) n with
+    | none =>
+      right
+      refine ⟨by simp [allocExtents, hfree], ?_⟩
+      rcases h2 hp with h3 | h3
+      · exact Or.inl h3
+      · right; omega
+    | some rs =>
+      left
+      obtain ⟨_, _, hsum, hok⟩ := h1 rs hp
+      have hinv := allocExtents_inv s n (some rs) h
+      have hres : allocExtents s n (some rs) =
+          .ok { rs.foldl markRun s with sbFreeBlocks := (rs.foldl markRun s).sbFreeBlocks - n } := by
+        simp [allocExtents, hfree, hok, hsum]
+      rw [hres] at hinv ⊢
+      refine ⟨_, rfl, hinv, ?_⟩
+      have hsb : ∀ (l : List Run) (t : Acc), (l.foldl markRun t).sbFreeBlocks = t.sbFreeBlocks := by
+        intro l
+        induction l with
+        | nil => intro t; rfl
+        | cons r l ih => intro t; simp only [List.foldl_cons]; rw [ih]; rfl
+      simp only [hsb]
+      omega
+
+/-- remove_restores_inv: Remove's bookkeeping as it is now — every block of the inode (data and extent-tree
+    blocks) cleared at bit `(b - firstDataBlock) % blocksPerGroup` of group `(b - firstDataBlock) / blocksPerGroup`,
+    that group's counter moved by one per cleared bit, the inode's bit `(ino-1) % inodesPerGroup` cleared, the
+    group's free-inode (and used-directories) counter and both superblock counters moved by exactly what was
+    released — keeps `counters = bitmaps` from EVERY state that satisfies it, for every inode that is marked and
+    every list of marked, pairwise distinct blocks (`blocksMarked` threads the state, so a block listed twice is
+    not marked the second time), for any geometry. -/
+theorem remove_restores_inv (geo : Geom) (s : Acc) (ino : Nat) (blocks : List Nat) (blocks512 : Nat) (isDir : Bool)
+    (h : AccInv s) (hb : blocksMarked geo s blocks = true) (hi : inodeMarked geo s ino = true) :
+    AccInv (removeInode true geo s ino blocks blocks512 isDir) :=
+  removeInode_fixed_inv geo s ino blocks blocks512 isDir h hb hi
+
+/-- and it releases exactly what it says: the superblock counters move by the number of blocks and by one inode -/
+theorem remove_counts (geo : Geom) (s : Acc) (ino : Nat) (blocks : List Nat) (blocks512 : Nat) (isDir : Bool) :
+    (removeInode true geo s ino blocks blocks512 isDir).sbFreeBlocks = s.sbFreeBlocks + blocks.length ∧
+    (removeInode true geo s ino blocks blocks512 isDir).sbFreeInodes = s.sbFreeInodes + 1 := by
+  have hsb : ∀ (bs : List Nat) (t : Acc), (bs.foldl (freeBlock true geo) t).sbFreeBlocks = t.sbFreeBlocks ∧
+      (bs.foldl (freeBlock true geo) t).sbFreeInodes = t.sbFreeInodes := by
+    intro bs
+    induction bs with
+    | nil => intro t; exact ⟨rfl, rfl⟩
+    | cons b bs ih => intro t; simp only [List.foldl_cons]; rw [(ih _).1, (ih _).2]; exact ⟨rfl, rfl⟩
+  simp only [removeInode, if_true, (hsb blocks s).1, (hsb blocks s).2]
+  exact ⟨trivial, trivial⟩
+
+/-- dealloc_restores_inv: deallocateExtents with the repaired arithmetic (group and bit from `b - firstDataBlock`)
+    keeps `counters = bitmaps` for every geometry, state and list of marked, pairwise distinct blocks; the
+    arithmetic as found (`(b-1)/bpg`) is the same function when firstDataBlock = 1 (1 KiB blocks) … -/
+theorem dealloc_restores_inv (geo : Geom) (s : Acc) (blocks : List Nat) (h : AccInv s)
+    (hm : blocksMarkedD geo s blocks = true) :
+    AccInv (deallocBlocks true geo s blocks) ∧
+    (geo.fdb = 1 → deallocBlocks false geo s blocks = deallocBlocks true geo s blocks) := by
+  refine ⟨deallocBlocks_fixed_inv geo blocks s h hm, fun h1 => ?_⟩
+  have : deallocBlock false geo = deallocBlock true geo := by
+    funext t b; exact deallocBlock_asfound_eq geo t b h1
+  simp only [deallocBlocks, this]
+
+/-- … and wrong when firstDataBlock = 0 (2 and 4 KiB blocks): two groups of 8 blocks, block 8 (the first block
+    of group 1) is marked; as found, the release credits group 0 (whose bitmap has no such bit) and leaves the
+    block marked — counters ≠ bitmaps (finding ext4-dealloc-block-group); repaired, the invariant holds. -/
+def dGeo : Geom := ⟨0, 8, 8⟩
+def dState : Acc :=
+  ⟨[{ bbm := [true, true, true, false, false, false, false, false], ibm := List.replicate 8 false,
+      freeBlocks := 5, freeInodes := 8, usedDirs := 0 },
+    { bbm := [true, false, false, false, false, false, false, false], ibm := List.replicate 8 false,
+      freeBlocks := 7, freeInodes := 8, usedDirs := 0 }], 12, 16⟩
+theorem cex_ext4_dealloc_block_group :
+    AccInv dState ∧ blocksMarkedD dGeo dState [8] = true ∧
+    ¬ AccInv (deallocBlocks false dGeo dState [8]) ∧ AccInv (deallocBlocks true dGeo dState [8]) := by
+  refine ⟨by decide, by decide, by decide, by decide⟩
+
 /-- the witness state: one group of 8 blocks (1 KiB geometry: firstDataBlock = 1) and 8 inodes; inode 3 owns
     blocks 4 and 5 -/
 def wGeo : Geom := ⟨1, 8, 8⟩
@@ -66,6 +172,58 @@ theorem cex_ext4_remove_accounting :
     ¬ AccInv (removeInode false wGeo wState 3 [4, 5] 4 false) ∧
     AccInv (removeInode true wGeo wState 3 [4, 5] 4 false) := by
   refine ⟨by decide, by decide, by decide, by decide⟩
+
+/-! ### link counts and used-directories counters -/
+
+/-- links_inv: the bookkeeping of Mkdir / create / Symlink (mkDirEntry + initFile: new directory 2 links, anything
+    else 1, parent +1 for a directory, the new inode's group's used-directories counter +1) and of Remove (parent
+    −1 and counter −1 for a directory) keeps what e2fsck's passes 2–4 compare — every directory has 2 + (number of
+    sub-directories) links, everything else 1, every group's counter is the number of its directory inodes, every
+    entry's directory exists — for every state, parent, inode number and kind, and every call that is refused. -/
+theorem links_inv (s : Links.LState) (op : Links.LOp) (h : Links.LinkInv s) : Links.LinkInv (Links.lstep s op) := by
+  cases op with
+  | mk p k dir =>
+    simp only [Links.lstep]
+    split
+    · rename_i hg; exact Links.mkEntry_inv s p k dir h hg
+    · exact h
+  | rm k =>
+    simp only [Links.lstep]
+    split
+    · rename_i hg; exact Links.rmEntry_inv s k h hg
+    · exact h
+
+theorem links_inv_history (ops : List Links.LOp) (s : Links.LState) (h : Links.LinkInv s) :
+    Links.LinkInv (ops.foldl Links.lstep s) := by
+  induction ops generalizing s with
+  | nil => exact h
+  | cons op ops ih => exact ih _ (links_inv s op h)
+
+/-- non-vacuity: the tree ext4.Create leaves (root = inode 2 with lost+found = inode 11 in it) satisfies the
+    invariant, and Mkdir / Remove of a directory move the counters as the code does -/
+def fresh : Links.LState :=
+  ⟨[2, 11], fun i => i == 2 || i == 11, fun _ => 2, fun i => if i == 2 then 3 else 2, fun g => if g == 0 then 2 else 0, 1024⟩
+
+theorem fresh_inv : Links.LinkInv fresh := by
+  refine ⟨by decide, ?_, ?_, ?_, ?_⟩
+  · intro n hn; simp [fresh] at hn ⊢
+  · intro d hd _
+    simp only [fresh, List.mem_cons, List.not_mem_nil, or_false] at hd
+    rcases hd with hd | hd <;> subst hd <;> decide
+  · intro n hn hf
+    simp only [fresh, List.mem_cons, List.not_mem_nil, or_false] at hn
+    rcases hn with hn | hn <;> subst hn <;> simp [fresh] at hf
+  · intro g
+    by_cases hg : g = 0
+    · subst hg; decide
+    · have h2 : ((2 - 1) / 1024 == g) = false := by simp; omega
+      have h11 : ((11 - 1) / 1024 == g) = false := by simp; omega
+      simp [fresh, Links.dirsIn, Links.groupOf, hg, h2, h11]
+
+example : (Links.lstep fresh (.mk 2 12 true)).links 2 = 4 ∧ (Links.lstep fresh (.mk 2 12 true)).links 12 = 2 ∧
+    (Links.lstep fresh (.mk 2 12 true)).usedDirs 0 = 3 ∧
+    (Links.lstep (Links.lstep fresh (.mk 2 12 true)) (.rm 12)).links 2 = 3 ∧
+    (Links.lstep (Links.lstep fresh (.mk 2 12 true)) (.rm 12)).usedDirs 0 = 2 := by decide
 
 /-! ### mkfs layout -/
 
@@ -147,7 +305,16 @@ theorem mkfs_layout_inside_noflex (l : Layout) (hfit : Fits l false) (g : Nat) (
   simp only [Bool.false_eq_true, if_false]
   omega
 
-/-! non-vacuity: the default 16 MiB volume -/
+/-! non-vacuity -/
+example : AccInv wState ∧ blocksMarked wGeo wState [4, 5] = true ∧ inodeMarked wGeo wState 3 = true := by decide
+example : (step wState (.remove wGeo 3 [4, 5] false)).state =
+    ⟨[{ bbm := [true, true, true, false, false, false, false, false],
+        ibm := [true, true, false, false, false, false, false, false],
+        freeBlocks := 5, freeInodes := 6, usedDirs := 1 }], 5, 6⟩ := by decide
+/-- a block listed twice is refused by the guard (the code would count it twice) -/
+example : step wState (.remove wGeo 3 [4, 4] false) = .refused wState := by decide
+
+/-! the default 16 MiB volume -/
 def p16 : Params := ⟨16 * 1024 * 1024, 0, 0, 0, 0, 0, true, true, true⟩
 example : groupsOf p16 = 2 ∧ ipgOf p16 = 1024 ∧ chooseBs p16 = 1024 ∧ flexSizeOf p16 = 8 := by decide
 example : Fits ⟨1024, 16384, 8192, 2, 1024, 2048, 1, 256, 64, 1, 256, 8, true⟩ true := by decide
